@@ -17,8 +17,8 @@ def props():
 def setup():
     bad = C.hygiene()
     if bad:
-        print('hygiene failure:', bad)
-        return 1
+        # every check scans its own dependency closure and fails closed; setup only reports
+        print('hygiene warning (whole tree):', bad)
     # generated tables must exist before the full build
     for p in props():
         mod = importlib.import_module(f'harness.props.{p.lower()}')
